@@ -641,6 +641,29 @@ fn mode_random_big(j: &mut Judge) {
     for i in 0..cases {
         let cs = only.unwrap_or_else(|| mix(&[seed, 0xB16, shard, i]));
         let mut r = Rng::new(cs);
+        if i % 3 == 2 {
+            // line-count histories: exactly N tiny lines sit in a buffer that is large enough for all of them when the
+            // flush comes (N around the limits of 8- and 16-bit counters), then a few more lines and the drop
+            let n = *r.pick(&[255usize, 256, 257, 65535, 65536, 65537, 131072]);
+            let len = r.usize_below(2);
+            let cap = n * (len + 1) + *r.pick(&[0usize, 1, 10, 1000]) + 3 * (len + 1);
+            let mut ops = Vec::with_capacity(n + 8);
+            for k in 0..n {
+                ops.push(POp::Emit(if len == 0 { Vec::new() } else { vec![b'a' + (k % 26) as u8] }));
+            }
+            ops.push(POp::Flush);
+            ops.push(POp::Flush);
+            for k in 0..3 {
+                ops.push(POp::Emit(if len == 0 { Vec::new() } else { vec![b'A' + k as u8] }));
+            }
+            let rr = run_w1(cap, "\n", &ops, &[], None, 0);
+            j.judge(cap, "\n", &rr.steps, vec![("mode", "random-big".into()), ("case-seed", cs.to_string()), ("cases", "1".into())], "W1-line-count");
+            j.rep.obs("histories_with_exactly_2^8_2^16_or_2^17_lines_buffered_at_the_flush", 1);
+            if only.is_some() || j.rep.violation_count >= 12 {
+                break;
+            }
+            continue;
+        }
         let cap = *r.pick(&[8191usize, 8192, 8193, 9000, 16384, 65535, 65536, 65537, 70000, 100000, 200000]);
         let term = *r.pick(&TERMS);
         let mut ops = Vec::new();
